@@ -41,6 +41,8 @@ func (s *Store[H]) OnDelete(fn func(context.Context, uint64) error) {
 var (
 	deleteRangeParallelThreshold uint64 = 10000
 	errDeleteTimeout                    = errors.New("delete timeout")
+	// errMissingHeader reports that the header to delete is absent from the store.
+	errMissingHeader = errors.New("header is missing")
 )
 
 // deleteSingle deletes a single header from the store,
@@ -58,9 +60,12 @@ func (s *Store[H]) deleteSingle(
 	hash, err := s.heightIndex.HashByHeight(ctx, height, false)
 	if errors.Is(err, datastore.ErrNotFound) {
 		// the header may not be flushed yet and thus be absent from the height index
-		if h := s.pending.GetByHeight(height); !h.IsZero() {
-			hash, err = h.Hash(), nil
+		h := s.pending.GetByHeight(height)
+		if h.IsZero() {
+			// a dedicated error, so that a handler's own not-found error is never mistaken for it
+			return fmt.Errorf("hash by height %d: %w", height, errMissingHeader)
 		}
+		hash, err = h.Hash(), nil
 	}
 	if err != nil {
 		return fmt.Errorf("hash by height %d: %w", height, err)
@@ -108,7 +113,7 @@ func (s *Store[H]) deleteSequential(
 
 	for height := from; height < to; height++ {
 		err := s.deleteSingle(ctx, height, onDelete)
-		if errors.Is(err, datastore.ErrNotFound) {
+		if errors.Is(err, errMissingHeader) {
 			missing++
 			log.Debugw("attempt to delete header that's not found", "height", height)
 		} else if err != nil {
@@ -173,7 +178,7 @@ func (s *Store[H]) deleteParallel(ctx context.Context, from, to uint64) (uint64,
 		for height := range jobCh {
 			last.height = height
 			last.err = s.deleteSingle(workerCtx, height, onDelete)
-			if errors.Is(last.err, datastore.ErrNotFound) {
+			if errors.Is(last.err, errMissingHeader) {
 				last.missing++
 				log.Debugw("attempt to delete header that's not found", "height", height)
 			} else if last.err != nil {
